@@ -248,7 +248,7 @@ def axioms_named(assump_text):
     names = set()
     for ln in assump_text.splitlines():
         m = re.match(r"^([A-Za-z_][A-Za-z0-9_.']*)\s*:", ln.strip())
-        if m:
+        if m and m.group(1) != "Axioms":
             names.add(m.group(1))
         m = re.match(r"^([A-Za-z_][A-Za-z0-9_.']*)$", ln.strip())
         if m and "." in m.group(1):
